@@ -95,9 +95,11 @@ def run_case(bdir, wd, idx, files, opts):
     return obs
 
 
-def spec_check(obs, quiet):
+def spec_check(obs, quiet, werror=False):
     """The property, evaluated on what the real run showed (independent of the model)."""
     bad = []
+    if werror and any(f["pw"] > 0 for f in obs["files"]):
+        bad.append("-Werror given but a diagnostic was still issued (and counted) as a warning")
     any_err = any(f["pe"] > 0 for f in obs["files"])
     st = obs["status"]
     if st not in (0, 2, 3):
@@ -181,7 +183,7 @@ def run(args):
     answers = common.driver("c02", reqs)
     for (files, opts, tag), obs, req, ans in zip(cases, obss, reqs, answers):
         quiet = "-q" in opts
-        bad = spec_check(obs, quiet)
+        bad = spec_check(obs, quiet, "-Werror" in opts)
         m = re.match(r"status=(\d+) files=(.*)", ans)
         mfiles = [x.split(":") for x in m.group(2).split(",")] if m and m.group(2) else []
         case_desc = dict(tag=tag, options=opts, diagnostics=[rle(d) for _s, d in files], observed={k: v for k, v in obs.items()}, model=ans)
